@@ -213,6 +213,9 @@ class HistoryGen:
         fam = [T.esub(m, x, rng.choice(plugs)), T.esub(m, y, rng.choice(plugs)), T.ssub(m, X, rng.choice(plugs)), T.ssub(mf, X, rng.choice(plugs)),
                T.esub(T.esub(m, y, T.evar(x)), x, rng.choice(plugs)), T.ssub(T.esub(m, y, T.sym(0)), X, rng.choice(plugs)), T.ex(x, m), T.ex(y, T.esub(m, x, rng.choice(plugs))),
                T.mu(X, T.app(T.svar(X), T.evar(x))), T.mu(X, T.app(T.svar(X), m)), mf, T.imp(mf, T.esub(mf, y, T.evar(x))), N(NEG_BODY, T.ssub(m, X, rng.choice(plugs)))]
+        neg = lambda a: N(NEG_BODY, a)
+        fam += [N(T.imp(neg(M0), M1), T.evar(x), T.evar(y)), N(T.imp(neg(M0), M1), T.evar(y), T.evar(x)), N(neg(T.imp(M0, neg(M1))), m, T.evar(x)),      # x in one argument only
+                neg(T.evar(x)), N(T.app(T.app(T.sym(1), M0), M2), T.evar(y), T.evar(x), T.sym(0)), N(neg(T.ex(x, neg(M0))), T.app(T.evar(x), T.evar(y)))]
         P = rng.choice(fam)
         try:
             pe = expand(P)
@@ -226,7 +229,7 @@ class HistoryGen:
         self.op(['instantiate', [0, 1]], [OP['Instantiate'], 2, 1, 0])          # |- P -> (Q -> P)
         cons = T.imp(expand(Q), pe)
         cand = [x, y] + list(k.evars)
-        if rng.random() > self.p_bad * 2:
+        if rng.random() > (0 if self.p_bad == 0 else max(0.25, self.p_bad * 2)):
             cand = [v for v in cand if T.e_fresh(cons, v)]
             if not cand:
                 self.op(['pop'], [OP['Pop']])
